@@ -55,6 +55,16 @@ var icmpNames = map[string]string{"echo": "8", "echo-reply": "0", "unreachable":
 	"packet-too-big": "3 4", "port-unreachable": "3 3", "host-unreachable": "3 1",
 	"net-unreachable": "3 0", "ttl-exceeded": "11 0", "reassembly-timeout": "11 1", "administratively-prohibited": "3 13"}
 
+// ICMPv6 type names of the ASA (numbers from RFC 4443, 2710, 4861, 2894).
+var icmp6Names = map[string]string{"unreachable": "1", "packet-too-big": "2", "time-exceeded": "3", "parameter-problem": "4",
+	"echo": "128", "echo-reply": "129", "membership-query": "130", "membership-report": "131", "membership-reduction": "132",
+	"router-solicitation": "133", "router-advertisement": "134", "neighbor-solicitation": "135", "neighbor-advertisement": "136",
+	"neighbor-redirect": "137", "router-renumbering": "138"}
+
+// Icmp6Names / IcmpNames: copies for the generators of the spelling spaces.
+func Icmp6Names() map[string]string { return icmp6Names }
+func IcmpNames() map[string]string  { return icmpNames }
+
 // ACE is a parsed extended ACL entry (the part after the ACL name / the IOS
 // sub-command).  Parts that are not understood stay in Rest.
 type ACE struct {
@@ -199,6 +209,11 @@ func ParseACE(text string) ACE {
 		t := w[i]
 		if i == 0 && (a.Proto == "icmp") {
 			if v, ok := icmpNames[t]; ok {
+				t = v
+			}
+		}
+		if i == 0 && (a.Proto == "icmp6") {
+			if v, ok := icmp6Names[t]; ok {
 				t = v
 			}
 		}
